@@ -1,8 +1,77 @@
 (* Property C12 - mappings codec round-trips and matches source-map v3.
-   This file only states the property theorems and closes each with a lemma
-   proved elsewhere. *)
-From RS Require Import Base.Prelude Codec.Vlq Codec.CodecSpec Proofs.CodecAlphabet.
+   This file only states the property theorems (about the model Codec/Vlq.v,
+   against the independent reading Codec/CodecSpec.v) and closes each with a
+   lemma proved in Proofs/Codec*.v. *)
+From RS Require Import Base.Prelude Codec.Vlq Codec.CodecSpec Checkers.ChkCodec
+  Proofs.CodecAlphabet Proofs.CodecVlq Proofs.CodecKept Proofs.CodecSplit Proofs.CodecEnc
+  Proofs.CodecLines Proofs.CodecDec Proofs.CodecMain.
+
+(* enc_domain ms: sorted by generated position (non-strictly), every field < 2^30, lines >= 1 *)
 
 Theorem C12_alphabet_inverse : forall d, d < 64 -> b64_val (b64_char d) = d /\ b64_digit (b64_char d) = Some d.
 Proof. intros d Hd. split; [exact (b64_val_char d Hd) | exact (b64_digit_char d Hd)]. Qed.
 Print Assumptions C12_alphabet_inverse.
+
+(* one VLQ number, read by the independent v3 reader *)
+Theorem C12_vlq_roundtrip : forall a b, a < two32 -> b < two32 ->
+  (Z.abs (Z.of_N a - Z.of_N b) < 2^31)%Z ->
+  vlq_ints (encode_vlq a b) = Some [(Z.of_N a - Z.of_N b)%Z].
+Proof. exact vlq_roundtrip. Qed.
+Print Assumptions C12_vlq_roundtrip.
+
+(* decode . encode = the non-redundant segments, and those attribute every position as the input *)
+Theorem C12_decode_encode : forall ms, enc_domain ms = true ->
+  decode_mappings (encode_full ms) = kept ms.
+Proof. exact decode_encode. Qed.
+Print Assumptions C12_decode_encode.
+
+Theorem C12_kept_attribution : forall ms l c, sorted_by pos_le ms = true ->
+  lookup (kept ms) l c = lookup ms l c.
+Proof. exact kept_attr. Qed.
+Print Assumptions C12_kept_attribution.
+
+Theorem C12_roundtrip_attribution : forall ms l c, enc_domain ms = true ->
+  lookup (decode_mappings (encode_full ms)) l c = lookup ms l c.
+Proof. exact decode_encode_attr. Qed.
+Print Assumptions C12_roundtrip_attribution.
+
+(* the encoder's output read by the independent implementation of the format
+   (original lines are 1-based in the crate; the v3 format cannot express line 0:
+   encode_spec_counterexample) *)
+Theorem C12_encode_matches_spec : forall ms, enc_domain ms = true ->
+  Forall (fun m => match m_orig m with Some o => 1 <= o_line o | None => True end) ms ->
+  spec_decode (encode_full ms) = Some (kept ms).
+Proof. exact encode_spec_partial. Qed.
+Print Assumptions C12_encode_matches_spec.
+
+Theorem C12_reencode : forall ms, enc_domain ms = true ->
+  encode_full (decode_mappings (encode_full ms)) = encode_full ms.
+Proof. exact reencode. Qed.
+Print Assumptions C12_reencode.
+
+(* on every string of the v3 grammar whose running values fit u32 - redundant continuation
+   digits, empty segments, backward columns, several ';' included - the decoder returns
+   exactly the segments the format defines *)
+Theorem C12_decode_matches_spec : forall s l, spec_decode s = Some l ->
+  forallb mapping_u32 l = true -> Forall (fun c => c < 256) s ->
+  decode_mappings s = l.
+Proof. exact decode_matches_spec. Qed.
+Print Assumptions C12_decode_matches_spec.
+
+(* the line-only encoder keeps exactly the first mapped segment of each line, column 0, no name *)
+Theorem C12_lines_only : forall ms, enc_domain ms = true ->
+  decode_mappings (encode_lines ms) = line_firsts ms.
+Proof. exact lines_only_decode. Qed.
+Print Assumptions C12_lines_only.
+
+Theorem C12_lines_only_spec : forall ms, enc_domain ms = true ->
+  Forall (fun m => match m_orig m with Some o => 1 <= o_line o | None => True end) ms ->
+  spec_decode (encode_lines ms) = Some (line_firsts ms) /\ decode_mappings (encode_lines ms) = line_firsts ms.
+Proof. exact lines_only_partial. Qed.
+Print Assumptions C12_lines_only_spec.
+
+(* only base64 digits, ',' and ';' are ever emitted, all ASCII (precondition of from_utf8_unchecked) *)
+Theorem C12_alphabet : forall ms c, In c (encode_full ms) \/ In c (encode_lines ms) ->
+  c < 128 /\ (b64_digit c <> None \/ c = 44 \/ c = 59).
+Proof. exact encode_alphabet. Qed.
+Print Assumptions C12_alphabet.
